@@ -60,6 +60,10 @@ type sysFault struct {
 	// PromReloadFails: the shard's Prometheus answers 500 to its next reload requests (killSidecar ignores it)
 	PromReloadFails int `json:"promReloadFails,omitempty"`
 	Shard           int `json:"shard,omitempty"`
+	// Term (killSidecar): the sidecar is not killed but terminated (SIGTERM, what a pod gets first when it is
+	// replaced), right after it REFUSED an update of its targets (the reload of its Prometheus failed): the new
+	// process must resume what was acknowledged before
+	Term bool `json:"term,omitempty"`
 }
 
 type sysCase struct {
@@ -269,6 +273,22 @@ func (s *shardProc) start(bin string) error {
 	return nil
 }
 
+// term sends SIGTERM and waits for the process to end (it is killed if it has not ended after 5 s).
+func (s *shardProc) term() {
+	if s.cmd == nil || s.cmd.Process == nil {
+		return
+	}
+	_ = s.cmd.Process.Signal(syscall.SIGTERM)
+	done := make(chan struct{})
+	go func() { _, _ = s.cmd.Process.Wait(); close(done) }()
+	select {
+	case <-done:
+	case <-time.After(5 * time.Second):
+		_ = s.cmd.Process.Kill()
+		<-done
+	}
+}
+
 func (s *shardProc) kill() {
 	if s.cmd != nil && s.cmd.Process != nil {
 		_ = s.cmd.Process.Kill()
@@ -426,16 +446,15 @@ type snapshot struct {
 }
 
 func snapshotOf(s *shardProc) (*snapshot, error) {
-	var ts map[string][]map[string]interface{}
-	if err := getJSON(fmt.Sprintf("http://127.0.0.1:%d/api/v1/shard/targets/", s.api), &ts); err != nil {
+	// the sidecar lists what it holds as hash -> scrape status; a restart starts the scrape statistics afresh, the
+	// set of hashes and the state of each entry are what it must resume
+	var st map[string]map[string]interface{}
+	if err := getJSON(fmt.Sprintf("http://127.0.0.1:%d/api/v1/shard/targets/", s.api), &st); err != nil {
 		return nil, err
 	}
-	for job, l := range ts {
-		if len(l) == 0 {
-			delete(ts, job)
-			continue
-		}
-		sort.Slice(l, func(a, b int) bool { return fmt.Sprint(l[a]["hash"]) < fmt.Sprint(l[b]["hash"]) })
+	ts := map[string]string{}
+	for h, v := range st {
+		ts[h] = fmt.Sprint(v["TargetState"])
 	}
 	b, _ := json.Marshal(ts)
 	var ri struct {
@@ -816,11 +835,34 @@ func runSys(c *sysCase) (vs []vkit.Violation, classes []string, infra error) {
 				atomic.StoreInt32(&s.paused, 1)
 				time.Sleep(60 * time.Millisecond)
 				before, errB := snapshotOf(s)
-				s.kill()
+				if f.Term && errB == nil && before.targets != "{}" {
+					atomic.StoreInt32(&s.failReload, 1000)
+					resp, err := http.Post(fmt.Sprintf("http://127.0.0.1:%d/api/v1/shard/targets/", s.api), "application/json", strings.NewReader(`{"targets":{}}`))
+					refused := err == nil && resp.StatusCode != 200
+					if err == nil {
+						_ = resp.Body.Close()
+					}
+					if refused {
+						classes = append(classes, "sys/fault/sidecar-terminated-after-a-refused-update")
+					}
+					s.term()
+					atomic.StoreInt32(&s.failReload, 0)
+				} else {
+					s.kill()
+				}
 				if err := s.start(bin); err != nil {
 					return nil, nil, errInfra{err.Error()}
 				}
 				after, errA := snapshotOf(s)
+				if errB != nil || errA != nil {
+					classes = append(classes, "sys/fault/restart-not-judged-snapshot-failed")
+					if os.Getenv("VERIF_SYS_DEBUG") != "" {
+						if df, e := os.OpenFile(os.Getenv("VERIF_SYS_DEBUG"), os.O_APPEND|os.O_CREATE|os.O_WRONLY, 0644); e == nil {
+							fmt.Fprintf(df, "SNAPSHOT errB=%v errA=%v\n", errB, errA)
+							_ = df.Close()
+						}
+					}
+				}
 				if errB == nil && errA == nil {
 					if before.targets != after.targets {
 						add("C09/sys/restart-assignment-differs", "shard %d was killed and restarted on its store: it acknowledged\n%s\nand resumed\n%s", s.i, before.targets, after.targets)
@@ -1169,7 +1211,7 @@ func genSys(t *rapid.T, faults bool) *sysCase {
 		nf := rapid.IntRange(1, 3).Draw(t, "faults")
 		for i := 0; i < nf; i++ {
 			c.Faults = append(c.Faults, sysFault{AtCycle: rapid.IntRange(1, 25).Draw(t, fmt.Sprintf("f%d-at", i)),
-				Kind: rapid.SampledFrom([]string{"killSidecar", "killSidecar", "dropTarget", "toggleRule"}).Draw(t, fmt.Sprintf("f%d-kind", i)), Shard: rapid.IntRange(0, 3).Draw(t, fmt.Sprintf("f%d-shard", i)),
+				Kind: rapid.SampledFrom([]string{"killSidecar", "killSidecar", "dropTarget", "toggleRule"}).Draw(t, fmt.Sprintf("f%d-kind", i)), Shard: rapid.IntRange(0, 3).Draw(t, fmt.Sprintf("f%d-shard", i)), Term: rapid.Bool().Draw(t, fmt.Sprintf("f%d-term", i)),
 				PromReloadFails: rapid.SampledFrom([]int{0, 0, 1, 2}).Draw(t, fmt.Sprintf("f%d-reloadFails", i))})
 		}
 	}
